@@ -6,7 +6,7 @@ STEP_SPEC = {
     "props": ["C15", "C05"],
     "extra_rewrites": [R23B],
     "contract": """    requires old(self).wf(),
-    ensures final(self).wf(), // [C15:cache_invariants_kept_by_expiry]
+    ensures final(self).wf(), // [C05,C15:cache_invariants_kept_by_expiry]
         final(self).desired_size == old(self).desired_size,
         r == old(self).current_size - final(self).current_size, // [C15:expiry_reports_true_count]
         r == 0 ==> clean(*final(self)), // [C15:no_expired_record_left_when_nothing_removed]""",
